@@ -19,6 +19,7 @@ VALUES = [
     {"x": 0.1, "y": -0.0, "z": 1e308},
     {"u": "a b c\u0085d"},
     {},
+    {"size": 7, "depth": "x", "is_leaf": None},   # attributes named like read-only NodeMixin properties
 ]
 OPTIONS = [
     {},
@@ -30,7 +31,7 @@ OPTIONS = [
     {"indent": 4, "ensure_ascii": False, "sort_keys": True},
     {"indent": 1, "ensure_ascii": False, "separators": (",", ": ")},
 ]
-DEXP = ("default", "sorted", "reversed")
+DEXP = ("default", "sorted", "reversed", "subclass")
 
 
 def mk_dictexporter(name):
@@ -38,6 +39,16 @@ def mk_dictexporter(name):
 
     if name == "default":
         return None, (lambda items: list(items)), (lambda cs: list(cs))
+    if name == "subclass":
+        # a DictExporter subclass with its own attribute selection and its own maxlevel: JsonExporter must keep using it
+        class NoE(DictExporter):
+            @staticmethod
+            def _iter_attr_values(node):
+                for k, v in DictExporter._iter_attr_values(node):
+                    if k != "e":
+                        yield k, v
+
+        return NoE(maxlevel=5), (lambda items: [(k, v) for k, v in items if k != "e"]), (lambda cs: list(cs))
     if name == "sorted":
         f = lambda items: sorted(items, key=lambda kv: kv[0])  # noqa
         return DictExporter(attriter=f), f, (lambda cs: list(cs))
